@@ -103,13 +103,19 @@ Lemma content_NoDup : forall d t, csorted t = true -> NoDup (map fst (ccontent d
 Proof. intros d t H. apply (pw_NoDup kcmp); [exact kcmp_refl|apply content_sorted; exact H]. Qed.
 
 Lemma holds_of_parts : forall c es, c09_wf c = true -> c09_run c = Some es ->
+  op_mfn c = mf_sum ->
   cdepth_ok (out_depth c) (CN es) = true -> csorted (CN es) = true ->
   content_ok (k_d c) (op_img c) (ccontent (k_d c) (inj (k_tree c))) (ccontent (k_d c) (CN es)) = true ->
   c09_holds c (c09_model c) = true.
 Proof.
-  intros c es Hwf Hrun Hd Hs Hc. rewrite c09_pipeline, Hwf, Hrun, Hc.
+  intros c es Hwf Hrun Hm Hd Hs Hc. rewrite c09_pipeline, Hwf, Hrun. unfold content_okg. rewrite Hm.
+  change (mf_sum =? mf_sum) with true. cbv iota. rewrite Hc.
   rewrite out_wf_model by assumption. reflexivity.
 Qed.
+
+(* the merge function of a case is read off its operation *)
+#[export] Hint Extern 1 (op_mfn _ = _) =>
+  unfold op_mfn; match goal with H : k_op _ = _ |- _ => rewrite H end; reflexivity : core.
 
 (* ------------------------------------------------------------------ swizzle *)
 Theorem spec_swizzle : forall c perm, k_op c = OSwizzle perm -> c09_wf c = true ->
